@@ -70,6 +70,8 @@ def run(res, programs, tier):
     res.rule("R16.2", "panic edges reachable in parser code from the parser entry points are reviewed; str slicing bounds come from find/rfind; no checked arithmetic on parsed integers")
     res.rule("R16.3", "every Result<_, ConversionError>::unwrap of the primitive-operand macro forms belongs to a group with a valid range argument; other unwrap/expect sites match the frozen inventory")
     res.rule("R16.4", "no natural loop whose every exit leads to a panic block; no recursive cycle without a path to Return avoiding the cycle")
+    from . import intalg
+    intalg.r01_1(res, programs, "R01.1")      # shared with C01: a dropped borrow is a lost `UBig result must not be negative` panic
     for P in programs:
         cfgname = P.name
         if "dashu_float" in P.units:
